@@ -15,6 +15,12 @@ package event
 /*@
 type event
   monitor linkMutex level 6 guards link
+    invariant self.link != nil ==> self.link.event != nil && self.link.event.hooks != nil
+
+-- nil test on an interface value (looks at the data word through unsafe: assumed)
+assume-func github.com/iotaledger/hive.go/runtime/event.IsInterfaceNil(param) (r)
+  ensures param == nil ==> r
+
 
 func triggerSettings.WasTriggered
   requires t != nil
@@ -31,13 +37,17 @@ func triggerSettings.currentTriggerExceedsMaxTriggerCount
   ensures aload(t.triggerCount) == old(aload(t.triggerCount)) + 1
   ensures r0 <==> (t.maxTriggerCount != 0 && old(aload(t.triggerCount)) + 1 > t.maxTriggerCount)
 
+-- hooking a target returns a hook of that target
+func eventInterface.Hook(recv, callback, opts) (h)
+  ensures h != nil && h.event != nil && h.event.hooks != nil
+
 func Hook.Unhook
-  instantiate TriggerFunc: func()
+  instantiate TriggerFunc: int
   requires h != nil && h.event != nil && h.event.hooks != nil
   modifies everything
 
 func event.linkTo
-  instantiate TriggerFunc: func()
+  instantiate TriggerFunc: int
   opt twophase
   requires e != nil && unlocked(e.linkMutex)
   modifies everything
